@@ -35,6 +35,18 @@ Streams
   memoreplay / memostack  the real memo decorators on a function producing 0..n-1, read by successive
              consumers that take k_i elements vs Model.Determinism.Stored.reads; random decorator
              stacks: does a memo of the stack remember a one-shot iterator vs stackReplayable
+  budget     direct oracle: programs generated from the limits in the sources (gen/c16_budget.py:
+             per_function_execution_limit, total_function_execution_limit, the 300-inferences-per-context
+             cap, MAX_PARAM_SEARCHES) in which ONE query uses n-1 / n / n+1 units of a per-query budget -
+             through every public method that can (infer, help, complete, goto, get_references,
+             get_signatures, search) - directly followed on the same Script by a question that needs one
+             more unit, asked through every public query method (get_signatures, complete incl. its
+             signatures callback, infer, goto, help, get_references, search, complete_search; get_names
+             and get_context as cheap in-between queries); every answer must equal the answer of a fresh
+             Script. After every query the real InferenceState is looked at: were the three bookkeeping
+             objects re-created by this query (object identity), how many executions were refused, how
+             far the counters are from the limits (bucket of the evidence). Runs in worker processes
+             while the in-process streams run; Scripts live in an empty project.
   fault      an exception is injected at the k-th inference step of a query; afterwards all
              switches must have their defaults and the recursion stacks must be empty
 
@@ -57,6 +69,7 @@ from common import short
 from gen import c15_programs as P
 from gen import c16_dynparams as DP
 from gen import c16_memo as MP
+from gen import c16_budget as BG
 from props import c15 as C15
 
 MODELS = ['Recursion', 'Determinism']
@@ -72,6 +85,12 @@ MANIFEST = dict(
          'the same set (goto_set_invariant); after any sequence of queries with any outcomes the switches '
          'have their defaults and every query starts with fresh recursion bookkeeping '
          '(query_boundary_inv_partial; witness: inferred_element_counts is not reset, reproduced on jedi); '
+         'every public query method opens with the reset or reaches one through self (public_queries_reset, over the '
+         'method table the translator extracts), so for ANY history - also one that used up every budget - the '
+         'limit_reached decisions of a query are those of the first query of a fresh Script '
+         '(every_query_starts_with_fresh_budget, public_queries_have_fresh_budget over the limits of recursion.py; '
+         'kernel-checked witness budget_leaks_without_reset: without the reset in get_signatures the execution it needs '
+         'is refused after an infer that executed the function per_function_execution_limit times); '
          'this includes dynamic_params_depth = 0 and an empty statement stack for any outcome of '
          'dynamic_params._avoid_recursions (allowed, blocked by the recursion guard, exception) because the '
          'translator finds `+= 1` inside `if allowed:` right before the try whose finally has `-= 1` '
@@ -103,14 +122,32 @@ def canon(defs):
     out = []
     for d in defs:
         mp = d.module_path
-        out.append([str(mp) if mp is not None else None, d.line, d.column, d.name, d.type])
+        row = [str(mp) if mp is not None else None, d.line, d.column, d.name, d.type]
+        if hasattr(d, 'params') and hasattr(d, 'index'):
+            # a Signature: its parameters and the index of the current one are part of the answer
+            row.append('params=%s index=%r' % (','.join(p.name for p in d.params), d.index))
+        out.append(row)
     return out
+
+
+def call_query(script, q, line, col):
+    """q: the name of a Script method taking (line, column), or one of the position-less public
+    queries: 'search:<string>', 'complete_search:<string>', 'get_names'; 'get_context' returns one Name"""
+    if q.startswith('search:'):
+        return list(script.search(q[len('search:'):]))
+    if q.startswith('complete_search:'):
+        return list(script.complete_search(q[len('complete_search:'):]))
+    if q == 'get_names':
+        return script.get_names(all_scopes=True, definitions=True, references=True)
+    if q == 'get_context':
+        return [script.get_context(line, col)]
+    return getattr(script, q)(line, col)
 
 
 def run_query(script, q, line, col):
     """-> ('ok', canonical list) | ('ValueError', msg) | ('raised', class@site)"""
     try:
-        r = getattr(script, q)(line, col)
+        r = call_query(script, q, line, col)
         res = canon(r)      # reading .type / .module_path infers, too
     except ValueError as e:
         cls, site = common.exc_site(e)
@@ -124,12 +161,16 @@ def run_query(script, q, line, col):
         return ['raised', '%s@%s' % (cls, site)]
     if q == 'goto':
         res = sorted(res, key=lambda t: json.dumps(t))
-    if q == 'complete':
+    if q == 'complete' or q.startswith('complete_search:'):
         res = res[:60]
     return ['ok', res]
 
 
-def classify(a, b):
+SAME_NAMED_COMPLETION = ('same completion names and types in the same order, but a completion stands for a '
+                         'different one of several same-named definitions')
+
+
+def classify(a, b, q=None):
     """how two answers of the same query differ"""
     if a[0] != b[0]:
         return 'outcome differs'
@@ -139,6 +180,9 @@ def classify(a, b):
     kb = [t[:4] for t in b[1]]
     if ka == kb:
         return 'eq-class-representative: same path/line/column/name, different type'
+    if q is not None and q.split(':')[0] in ('complete', 'complete_search') \
+            and [t[3:5] for t in a[1]] == [t[3:5] for t in b[1]]:
+        return SAME_NAMED_COMPLETION
     if sorted(map(json.dumps, ka)) == sorted(map(json.dumps, kb)):
         return 'order differs'
     return 'different definitions'
@@ -972,6 +1016,8 @@ class Fresh:
         return self.ans[qq]
 
 
+BUDGET_HOW = ('jedi.Script(source, project=jedi.Project(<empty directory>)) for the used and the fresh Script; '
+              'otherwise as the other session streams: ')
 SESSION_HOW = ('s = jedi.Script(source); answers = [s.<query>(line, column) for each query of `session` in order]; '
                'compare the answer at index `at` with jedi.Script(source).<query>(line, column) on a fresh Script')
 
@@ -1094,6 +1140,8 @@ def stream_dynsession(ctx, cap):
     probed = set()
     # corpus first: minimised past alarms / the shapes of known defects
     for path in sorted(Path(common.CORPUS_DIR, 'C16').glob('*.json')):
+        if path.name.startswith('budget-'):
+            continue        # inputs of stream budget
         with open(path, encoding='utf-8') as f:
             c = json.load(f)
         sessions = [[tuple(q) for q in sess] for sess in c['sessions']]
@@ -1125,6 +1173,236 @@ def stream_dynsession(ctx, cap):
         nested = any(f['kind'] == 'nested' for f in meta['functions'])
         run_sessions(ctx, 'dynsession', label, src, sessions, fresh, params, cap, probed,
                      extra_case={'has_nested_helper_call': nested})
+
+
+# ----------------------------------------------------------------- stream: budget
+
+BUDGET_MEASURE = {'perfunc': 'per_function_max', 'total': 'executions', 'cap': 'context_inferences_max'}
+
+
+def budget_used(script):
+    """what the real per-query bookkeeping of the Script's InferenceState says right now"""
+    st = script._inference_state
+    det = getattr(st, 'execution_recursion_detector', None)
+    per = getattr(det, '_funcdef_execution_counts', None) or {}
+    cnt = getattr(st, 'inferred_element_counts', None) or {}
+    return {'blocked_executions': st.__dict__.get('_verif_blocked_executions', 0),
+            'executions': getattr(det, '_execution_count', 0),
+            'per_function_max': max(list(per.values()) or [0]),
+            'context_inferences_max': max(list(cnt.values()) or [0])}
+
+
+def budget_item(item):
+    """worker of common.parallel_map (fresh interpreter): the sessions of one budget program on the
+    real jedi; every query also on a fresh Script. -> per session, per query: both answers, the
+    switches, and what the real bookkeeping counted"""
+    if item is None:
+        return None
+    import jedi
+    import jedi.settings
+    jedi.settings.cache_directory = item['cache']
+    BlockedHook.install()
+    src = BG.build(item['spec'])['source']
+    mk = EmptyProject(item['cache'], src)
+    fresh = {}
+
+    def fresh_of(qq):
+        k = json.dumps(qq)
+        if k not in fresh:
+            s = mk()
+            fresh[k] = (ask(s, tuple(qq)), budget_used(s))
+        return fresh[k]
+    recs = []
+    for sess in item['sessions']:
+        s = mk()
+        steps = []
+        for qq in sess:
+            before = bookkeeping_objects(s)
+            b0 = budget_used(s)['blocked_executions']
+            a = ask(s, tuple(qq))
+            after = bookkeeping_objects(s)
+            used = budget_used(s)
+            used['blocked_executions'] -= b0        # of this query
+            exp, fused = fresh_of(qq)
+            steps.append({'ans': a, 'exp': exp, 'state': state_defaults(s), 'used': used, 'fresh_used': fused,
+                          'not_recreated': sorted(k for k in before if before[k] is after[k])})
+        recs.append(steps)
+    return recs
+
+
+class EmptyProject:
+    """Scripts of `src` in a project of their own: an empty directory.  With the default project (the
+    directory the check is started from) get_references and the dynamic parameter search open and
+    parse up to 30 files of that directory that contain the name - slow, and not part of the input"""
+    def __init__(self, base, src):
+        self.dir = os.path.join(base, 'empty-project')
+        os.makedirs(self.dir, exist_ok=True)
+        self.src = src
+
+    def __call__(self):
+        import jedi
+        return jedi.Script(self.src, project=jedi.Project(self.dir))
+
+
+BOOKKEEPING = ('execution_recursion_detector', 'recursion_detector', 'inferred_element_counts')
+
+
+def bookkeeping_objects(script):
+    """the objects InferenceState.reset_recursion_limitations re-creates; a query method that reset
+    leaves NEW objects behind (identity is what is compared, nothing is changed)"""
+    st = script._inference_state
+    return {k: getattr(st, k, None) for k in BOOKKEEPING}
+
+
+class BlockedHook:
+    """observes (without changing the result) how often ExecutionRecursionDetector.push_execution
+    answers `limit reached`; counted per InferenceState"""
+    done = False
+
+    @classmethod
+    def install(cls):
+        if cls.done:
+            return
+        from jedi.inference import recursion
+        orig = recursion.ExecutionRecursionDetector.push_execution
+
+        def push_execution(self, execution):
+            r = orig(self, execution)
+            if r:
+                d = self._inference_state.__dict__
+                d['_verif_blocked_executions'] = d.get('_verif_blocked_executions', 0) + 1
+            return r
+        recursion.ExecutionRecursionDetector.push_execution = push_execution
+        cls.done = True
+
+
+def budget_level(family, limit, used):
+    """how far the measured bookkeeping is from the limit: '<n-1', 'n-1', 'n', '>n'"""
+    key = BUDGET_MEASURE.get(family)
+    if key is None:
+        return 'n/a'
+    v = used[key]
+    if family == 'cap':
+        # one more query needs a handful of inferences: within 8 of the cap counts as the boundary
+        return '>=n' if v >= limit else ('n-8..n-1' if v >= limit - 8 else '<n-8')
+    return '>n' if v > limit else ('n' if v == limit else ('n-1' if v == limit - 1 else '<n-1'))
+
+
+SINGLE_QUERY_OVER_BUDGET = ('bookkeeping re-created by every query; a single query ran into a per-query limit by itself '
+                            'and what it had computed up to there stays in the memo of the Script')
+
+
+class BudgetRun:
+    """stream budget: starts the workers (they run while the in-process streams run), judges later"""
+    JOBS = 8
+
+    def __init__(self, ctx, pcache):
+        self.ctx = ctx
+        rng = ctx.subrng('budget')
+        self.lim = BG.limits(common.REPO)
+        items = []
+        for spec in BG.boundary_specs(self.lim, ctx.quick):
+            if ctx.quick and spec['family'] == 'perfunc':
+                # quick: one shape per delta, chosen by the seed (thorough: all of them)
+                if spec['shape'] != rng.choice(BG.SHAPES) and rng.random() < 0.7:
+                    continue
+            prog = BG.build(spec)
+            sessions = BG.sessions(rng, prog, ctx.quick, spec['family'])
+            size = 2 if spec['family'] == 'total' else 12
+            for i in range(0, len(sessions), size):
+                items.append({'spec': spec, 'sessions': sessions[i:i + size]})
+        # corpus: minimised regression inputs of this stream
+        for path in sorted(Path(common.CORPUS_DIR, 'C16').glob('budget-*.json')):
+            with open(path, encoding='utf-8') as f:
+                c = json.load(f)
+            items.append({'spec': c['spec'], 'sessions': c['sessions'], 'label': c['label']})
+        dirs = [pcache.child_dir('budget-%d' % k) for k in range(self.JOBS)]      # one per worker process
+        for n, it in enumerate(items):
+            it['cache'] = dirs[n % self.JOBS]
+        # parallel_map cuts the list into equal contiguous chunks: deal the items round-robin into
+        # JOBS buckets and pad them (None) to the same length >= 20
+        buckets = [items[k::self.JOBS] for k in range(self.JOBS)]
+        width = max(20, max(len(b) for b in buckets))
+        self.padded = []
+        for b in buckets:
+            self.padded += b + [None] * (width - len(b))
+        self.out = self.err = None
+        import threading
+        self.thread = threading.Thread(target=self._work, daemon=True)
+        self.thread.start()
+
+    def _work(self):
+        try:
+            self.out = common.parallel_map('props.c16', 'budget_item', self.padded, jobs=self.JOBS,
+                                           timeout=self.ctx.size(1500, 6000))
+        except BaseException as e:      # re-raised in finish()
+            self.err = e
+
+    def finish(self):
+        ctx = self.ctx
+        self.thread.join()
+        if self.err is not None:
+            raise self.err
+        for item, recs in zip(self.padded, self.out):
+            if item is None:
+                continue
+            spec = item['spec']
+            fam = spec['family']
+            src = BG.build(spec)['source']
+            label = item.get('label') or 'budget-%s%+d-%s' % (fam, spec['delta'], spec.get('shape', ''))
+            for sess, steps in zip(item['sessions'], recs):
+                prev_level = 'first-query'
+                hits = []
+                for at, (qq, st) in enumerate(zip(sess, steps)):
+                    ans, exp = st['ans'], st['exp']
+                    method = qq[0].split(':')[0]
+                    case = {'label': label, 'source': src, 'session': [list(x) for x in sess], 'at': at,
+                            'query': qq[0], 'line': qq[1], 'column': qq[2], 'family': fam, 'limit': spec['n'],
+                            'delta': spec['delta'], 'shape': '%s/%s' % (fam, method)}
+                    if st['state']:
+                        ctx.tie_broken('state:query_boundary_inv (budget)',
+                                       short({'label': label, 'session': case['session'], 'at': at, 'state': st['state']}, 800))
+                    # the mechanism (theorem every_query_starts_with_fresh_budget): every public query
+                    # method re-creates the bookkeeping objects.  Not judged: position validation raises
+                    # before the method body runs; get_context infers nothing and does not reset.
+                    stale = st['not_recreated'] if ans[0] != 'ValueError' and method != 'get_context' else []
+                    if stale:
+                        ctx.tie_broken('state:every_query_starts_with_fresh_budget (budget): Script.%s did not re-create %s'
+                                       % (method, ', '.join(stale)),
+                                       short({'label': label, 'session': case['session'], 'at': at,
+                                              'counted_after_the_query': st['used'],
+                                              'same_query_on_a_fresh_Script': st['fresh_used']}, 900))
+                    # did a single query run into a limit all by itself (on this Script so far, or
+                    # this query on the fresh Script)?
+                    cap = self.lim['node_cap']
+                    hit = lambda u: u['blocked_executions'] > 0 or u['context_inferences_max'] > cap
+                    if hit(st['used']):
+                        hits.append(at)
+                    ok = same_answer(ctx, 'budget', (label, json.dumps(sess), at), ans, exp)
+                    ctx.count('budget', (src, json.dumps(sess), at),
+                              nontrivial=prev_level in ('n-1', 'n', '>n', '>=n', 'n-8..n-1', 'n/a') and exp[0] == 'ok' and len(exp[1]) > 0,
+                              bucket='%s/before=%s/%s' % (fam, prev_level, method),
+                              sample={'label': label, 'session': case['session'], 'at': at, 'answer': short(ans, 200)})
+                    if not ok:
+                        diff = classify(exp, ans, qq[0])
+                        if stale:
+                            cause = ('Script.%s did not re-create %s: it ran with the bookkeeping the queries before it '
+                                     'left behind' % (method, ', '.join(stale)))
+                        elif diff == SAME_NAMED_COMPLETION:
+                            cause = 'bookkeeping re-created; ' + SAME_NAMED_COMPLETION
+                        elif hits or hit(st['fresh_used']):
+                            cause = SINGLE_QUERY_OVER_BUDGET
+                        else:
+                            cause = 'bookkeeping re-created by every query and no query ran into a limit by itself'
+                        obs = {'difference': diff, 'answer': ans,
+                               'budget_level_left_by_the_query_before': prev_level,
+                               'counted_after_the_query': st['used'],
+                               'same_query_on_a_fresh_Script_counted': st['fresh_used'],
+                               'queries_of_the_session_that_ran_into_a_limit_by_themselves': list(hits),
+                               'limits': self.lim, 'cause': cause, 'boundary_state': st['state']}
+                        ctx.fail('budget', 'answer on a used Script differs from the answer of a fresh Script: '
+                                 + diff, case, expected=exp, observed=obs, how=BUDGET_HOW + SESSION_HOW)
+                    prev_level = budget_level(fam, spec['n'], st['used']) if ans[0] != 'ValueError' else prev_level
 
 
 # ----------------------------------------------------------------- stream: fault
@@ -1316,8 +1594,13 @@ def run(ctx):
     import time
     walls = []
 
+    # debugging aid: VERIF_C16_ONLY=budget,session runs only the named streams (never set by ./check)
+    only = [x for x in os.environ.get('VERIF_C16_ONLY', '').split(',') if x]
+
     def timed(name, fn, *a):
         t0 = time.time()
+        if only and name.split('-')[0] not in only:
+            return []
         try:
             return fn(*a)
         finally:
@@ -1326,6 +1609,7 @@ def run(ctx):
     cases += timed('machine', stream_machine, ctx, reqs, cap, factor)
     cases += timed('memoreplay', stream_memoreplay, ctx, reqs)
     with PrivateCache() as pcache, SearchHook():
+        budget = timed('budget-start', BudgetRun, ctx, pcache)
         timed('eqclass', stream_eqclass, ctx)
         timed('order', stream_order, ctx)
         timed('session', stream_session, ctx, cap)
@@ -1336,10 +1620,14 @@ def run(ctx):
         except common.TieBroken as e:
             ctx.tie_broken('hook:' + e.what, e.detail)
         timed('subproc', stream_subproc, ctx, pcache)
+        if budget:
+            timed('budget-finish', budget.finish)
     ctx.notes.append('string hash randomisation of this (parent) process: %s; the subprocesses of stream subproc run under '
                      'fixed PYTHONHASHSEED values' % ('on' if sys.flags.hash_randomization else 'off'))
-    if ctx.model_ok:
-        answers = timed('lean-driver', common.run_driver_parallel, 'C16', reqs)
+    if only:
+        ctx.notes.append('VERIF_C16_ONLY=%s: PARTIAL RUN' % only)
+    if ctx.model_ok and reqs:
+        answers = common.run_driver_parallel('C16', reqs)
         compare(ctx, cases, answers)
     else:
         ctx.notes.append('model did not build: correspondence skipped, oracle only')
@@ -1360,6 +1648,10 @@ def run(ctx):
         'calling another generator function is not seen statically - the scan of the real memo after every query of '
         'the session streams (memo_one_shot) is what covers it; undecorated ad-hoc caches (dict attributes) are not '
         'in the table',
+        'execution budget: the model speaks about the decisions of push_execution given the trace of executions a query '
+        'makes; which executions a query makes depends on the memo (a warm memo saves executions), which is not '
+        'modelled - stream budget compares real answers, and the two ways this shows on the unchanged jedi are the '
+        'known findings C16-single-query-over-budget-memoised / C16-same-named-completion-representative',
         'flow_analysis_enabled / is_analysis blocks are inline try/finally statements (no callable primitive): '
         'checked by fault injection on real queries (stream fault), not by the machine correspondence',
     ]
@@ -1371,14 +1663,25 @@ def replay(ctx, payload):
     if 'session' in inp:
         with PrivateCache() as pcache, SearchHook():
             mk = lambda: jedi.Script(inp['source'])
+            if inp.get('family'):
+                # stream budget: the Script lives in an empty project
+                mk = EmptyProject(pcache.dir, inp['source'])
+                BlockedHook.install()
             if inp.get('files'):
                 # a c16_memo program: its files in a directory of their own, main.py given as text
                 mk = MemoProject(pcache.dir, 0, {'files': inp['files'], 'main': inp['source']})
             s = mk()
             ndiff = 0
             for i, qq in enumerate(inp['session']):
+                before = bookkeeping_objects(s)
                 a = ask(s, tuple(qq))
-                f = ask(mk(), tuple(qq))
+                after = bookkeeping_objects(s)
+                fs = mk()
+                f = ask(fs, tuple(qq))
+                if inp.get('family'):
+                    print('   bookkeeping objects not re-created by this query:',
+                          [k for k in before if before[k] is after[k]] or 'none', '| counted so far on the used Script:',
+                          budget_used(s), '| on the fresh Script:', budget_used(fs))
                 n = lambda r: '%d results' % len(r[1]) if r[0] == 'ok' else r[0]
                 print(i, qq, 'used Script:', n(a), short(a, 300), '| fresh Script:', n(f), short(f, 300),
                       '' if a == f else '   <-- DIFFERS (%s)' % classify(f, a))
